@@ -5,30 +5,94 @@ ID = "C02"
 LEVEL = "exploration"
 FLAVOUR = "plain"
 TIMEOUT = 600
-RULE = ("the S1 lattice of C01 (kind x compression x page layout [cell] x null pattern x n x has_nulls x stats) plus "
-        "multi-file datasets (pairs of core kinds x row_group_offsets x hive/drill x page version, every part file, "
-        "_metadata and _common_metadata); every written file is parsed by specpq's strict validator (IDL field "
-        "ids / wire types / required fields, offsets, sizes, counts, encodings, codec, page tiling, level framing) "
-        "and decoded by specpq's reader, and the decoded rows are compared with the input incl. NULL vs NaN; "
-        "non-trivial = a file with >= 1 data page validated and compared")
+RULE = ("V1 = the S1 lattice of C01 (kind incl. C01's local kinds x compression x page layout [cell] x null pattern x n "
+        "(quick: 0,1,2,8,9 and 63,64,65 in the uncompressed cells) x has_nulls x stats) plus the codec spellings "
+        "'UNCOMPRESSED' / 'snappy' (thorough: + 'uncompressed', 'Snappy') for three kinds; V2 = multi-file datasets "
+        "(pairs of core kinds x row_group_offsets x simple/hive/drill x page version x codec, and for simple/hive "
+        "also has_nulls lists ['a'] / ['b'] and tiny pages; every part file, _metadata and _common_metadata); VP = "
+        "partitioned datasets (data kind x partition-key kind (int64, text, categorical, bool) x page version x codec "
+        "[cell] x row_group_offsets x hive/drill x one / two partition columns; every part file of every directory); "
+        "VB = framing boundaries (9 kinds x n in 504, 505, 2040, 8192 (thorough: + 503, 511, 512, 2031, 2032, 8191, "
+        "8193, 16384 and a 40000-label categorical) [cell] x null pattern none/alt/last x page version x one page / "
+        "pages of n//5 rows); VO = option sub-lattices of C01 (times int64/int96 x datetime kind x has_nulls x page "
+        "layout, object_encoding str (x null pattern incl. all x page version) and per-column dict, fixed_text x page "
+        "layout x codec, per-column compression dicts incl. a column named with None next to '_default' and lower-case "
+        "names x page layout); VI = written indexes and column names (C01's 11 index kinds x column kind x n in 0,1,9 "
+        "x row_group_offsets x simple/hive x page version; C01's 15-column frame with dotted / blank / non-ASCII "
+        "names x row_group_offsets x simple/hive x has_nulls all / partial list x no codec / per-column codec dict x "
+        "page layout; a four-column frame with two-level column names incl. a categorical x row_group_offsets x "
+        "simple/hive x page version). "
+        "Every written file is parsed by specpq's strict validator (IDL field ids / wire types / required fields, "
+        "offsets, sizes, counts, encodings, codec, page tiling, level framing) and decoded by specpq's reader; the "
+        "decoded rows are compared with the input incl. NULL vs NaN; every leaf's physical type, converted type, "
+        "logical type (unit, isAdjustedToUTC), repetition and every chunk's codec are compared with what the column "
+        "kind and the options demand; framing slack is bounded (see ASSUMPTIONS); _metadata is cross-checked against "
+        "every part footer (column metadata, schema, total_byte_size, file_offset, one file per row group, no "
+        "unreferenced part file); non-trivial = a file with >= 1 data page validated and compared")
 ASSUMPTIONS = ["specpq is the independent reader (written from the specification, bound to third-party files)",
                "cramjam trusted for decompression",
-               "tolerated, counted deviations: padding after the last value of a page, empty list written with "
-               "element type 0, LZ4 raw block under the deprecated LZ4 codec id"]
+               "tolerated, counted deviations: zero padding after the last value of a page (at most 9 bytes in a v1 "
+               "page, 1 byte in a v2 page), a last bit-packed group cut after the last needed value, at most one "
+               "surplus bit-packed group, empty list written with element type 0, LZ4 raw block under the deprecated "
+               "LZ4 codec id; judged: any RLE run longer than the page, bytes between levels and values, bytes after "
+               "the last dictionary entry, more slack than listed",
+               "expected annotations: text UTF8, JSON objects JSON, raw bytes none, (u)int8/16/32 and uint64 their "
+               "(U)INT_n on INT32/INT64, timedelta TIME_MICROS on INT64, datetimes INT64 with TIMESTAMP_* and/or a "
+               "TIMESTAMP logical type that agree in unit and whose isAdjustedToUTC equals tz-awareness (int96: "
+               "plain INT96); a converted type only on the physical types the format allows for it"]
+
+SPELL_KINDS = ["int64", "str_obj", "cat_str"]
+PAIR_KINDS = ["int64", "float64", "str_obj", "cat_str", "Int64", "dt_ns", "bool"]
+PART_KEYS = ["int64", "str_obj", "cat_str", "bool"]
+BIG_KINDS = ["bool", "int64", "float64", "str_obj", "cat_str", "cat_wide", "Int64", "boolean", "dt_ns"]
+BIG_N_Q = [504, 505, 2040, 8192]
+BIG_N_T = [503, 504, 505, 511, 512, 2031, 2032, 2040, 8191, 8192, 8193, 16384]
+DT_KINDS = ["dt_s", "dt_ms", "dt_us", "dt_ns", "dt_ns_utc", "dt_us_paris", "dt_ns_x", "dt_ns_m0330", "dt_us_ny"]
+INDEX_COL_KIND = {"int_unnamed": "int64", "uint64": "uint64", "float64": "float64", "Int64": "Int64", "dt_s": "dt_s",
+                  "dt_us_tz": "dt_us_ny", "td_us": "td_us", "cat": "cat_str"}
 
 
 def points(tier):
     from mc.props import C01
-    from mc import alphabets as A
+    thorough = tier == "thorough"
     pts = [dict(p, s="V1") for p in C01.points(tier) if p["s"] == "S1"]
-    kinds2 = ["int64", "float64", "str_obj", "cat_str", "Int64", "dt_ns", "bool"]
+    for kind in SPELL_KINDS:
+        for comp in (["UNCOMPRESSED", "snappy", "uncompressed", "Snappy"] if thorough else ["UNCOMPRESSED", "snappy"]):
+            for (ver, tiny) in C01.LAYOUTS:
+                pts.append({"s": "V1", "kind": kind, "comp": comp, "v": ver, "tiny": tiny, "tier": tier})
+    kinds2 = PAIR_KINDS
     for k1, k2 in itertools.product(kinds2, repeat=2):
-        if tier != "thorough" and (kinds2.index(k1) + kinds2.index(k2)) % 3:
+        if not thorough and (kinds2.index(k1) + kinds2.index(k2)) % 3:
             continue
         for ver in (1, 2):
             for comp in (None, "SNAPPY"):
                 pts.append({"s": "V2", "k1": k1, "k2": k2, "v": ver, "comp": comp, "tier": tier})
+    for k1 in kinds2:
+        for pk in PART_KEYS:
+            for ver in (1, 2):
+                for comp in ((None, "SNAPPY") if thorough else ("SNAPPY" if ver == 2 else None,)):
+                    pts.append({"s": "VP", "k1": k1, "pk": pk, "v": ver, "comp": comp, "tier": tier})
+    for kind in BIG_KINDS + (["cat_wide32"] if thorough else []):
+        for n in (BIG_N_T if thorough else BIG_N_Q):
+            pts.append({"s": "VB", "kind": kind, "n": n, "tier": tier})
+    for kind in DT_KINDS:
+        for times in ("int64", "int96"):
+            pts.append({"s": "VO", "opt": "times", "kind": kind, "times": times, "tier": tier})
+    for enc in ("infer", "utf8", "bytes", "json", "bool", "int", "int32", "float"):
+        pts.append({"s": "VO", "opt": "object_encoding", "enc": enc, "tier": tier})
+    for opt in ("object_encoding_dict", "fixed_text", "compdict"):
+        pts.append({"s": "VO", "opt": opt, "tier": tier})
+    for ik in C01.INDEX_KINDS:
+        for ck in (["int64", "str_obj", "cat_str", "Int64"] if thorough else ["int64", "str_obj"]):
+            pts.append({"s": "VI", "opt": "index", "ik": ik, "kind": ck, "tier": tier})
+    for ver in (1, 2):
+        for tiny in (False, True):
+            pts.append({"s": "VI", "opt": "wide", "v": ver, "tiny": tiny, "tier": tier})
+        pts.append({"s": "VI", "opt": "multicol", "v": ver, "tier": tier})
     return pts
+
+
+SIG_KEYS = ("kind", "comp", "v", "tiny", "k1", "k2", "pk", "opt", "ik", "n", "times", "enc")
 
 
 def explore(run, tier):
@@ -37,7 +101,7 @@ def explore(run, tier):
 
 def crash_sig(point, res):
     s = {"s": point["s"], "symptom": res["outcome"]}
-    for k in ("kind", "comp", "v", "tiny", "k1", "k2"):
+    for k in SIG_KEYS:
         if k in point:
             s[k] = point[k]
     return s
@@ -55,7 +119,7 @@ class Cell:
 
     def bad(self, symptom, detail, **extra):
         s = {"s": self.point["s"], "symptom": symptom}
-        for k in ("kind", "comp", "v", "tiny", "k1", "k2"):
+        for k in SIG_KEYS:
             if k in self.point:
                 s[k] = self.point[k]
         s.update(self.ctx)
@@ -88,19 +152,15 @@ INT64_MIN = -2 ** 63
 
 def expected_rows(series, kind, leaf, optional):
     """spec-level logical rows the file must decode to"""
-    import json
-    import numpy as np
     import pandas as pd
     from mc import oracles as O
-    from mc.specpq import file as F
     cells = O.series_to_list(series)
     out = []
-    raw = series.tolist() if not isinstance(series.dtype, pd.CategoricalDtype) else series.astype(object).tolist()
-    for c, r in zip(cells, raw):
+    for c in cells:
         if c is None:
             if optional:
                 out.append(None)
-            elif kind.startswith(("float",)):
+            elif kind.startswith(("float", "o_float")):
                 out.append("NaN")
             elif kind.startswith(("dt_", "td_")):
                 out.append(("sentinel", INT64_MIN))
@@ -109,6 +169,10 @@ def expected_rows(series, kind, leaf, optional):
             else:
                 out.append("cannot-be-missing")
             continue
+        if kind.startswith("fixed"):
+            # FIXED_LEN_BYTE_ARRAY: the UTF-8 bytes cut / NUL-padded to the declared length
+            w = int(kind[5:])
+            c = c.encode("utf8")[:w].ljust(w, b"\0").decode("utf8")
         out.append(c)
     return out
 
@@ -138,7 +202,9 @@ def decoded_rows(p, name, kind):
         v = F.logical(v, node)
         if kind.startswith("dt_") and node.type == F.T_INT96:
             ns, day = struct.unpack("<qi", v)
-            out.append(("ts", ns + (day - 2440588) * 86400 * 10 ** 9))
+            t = ns + (day - 2440588) * 86400 * 10 ** 9
+            # NaT of a REQUIRED int96 column: the day / nanosecond split of the int64 sentinel
+            out.append(("sentinel", INT64_MIN) if t == INT64_MIN else ("ts", t))
         elif kind.startswith("dt_"):
             if v == INT64_MIN:
                 out.append(("sentinel", INT64_MIN))
@@ -161,8 +227,141 @@ def decoded_rows(p, name, kind):
     return out
 
 
-def validate_file(c, path, what, df=None, kinds=None):
-    """strict validation + decode of one file; compare with df when given"""
+# ------------------------------------------------------------------------- schema annotations
+# converted type -> physical types the format allows it on (parquet-format LogicalTypes.md)
+_CT_PHYS = {"UTF8": ("BYTE_ARRAY",), "ENUM": ("BYTE_ARRAY",), "JSON": ("BYTE_ARRAY",), "BSON": ("BYTE_ARRAY",),
+            "DATE": ("INT32",), "TIME_MILLIS": ("INT32",), "TIME_MICROS": ("INT64",),
+            "TIMESTAMP_MILLIS": ("INT64",), "TIMESTAMP_MICROS": ("INT64",),
+            "UINT_8": ("INT32",), "UINT_16": ("INT32",), "UINT_32": ("INT32",), "UINT_64": ("INT64",),
+            "INT_8": ("INT32",), "INT_16": ("INT32",), "INT_32": ("INT32",), "INT_64": ("INT64",),
+            "DECIMAL": ("INT32", "INT64", "BYTE_ARRAY", "FIXED_LEN_BYTE_ARRAY"), "INTERVAL": ("FIXED_LEN_BYTE_ARRAY",)}
+_TZ_KINDS = ("dt_ns_utc", "dt_us_paris", "dt_ns_offset", "dt_ns_m0330", "dt_us_ny")
+
+
+def expected_leaf(kind, times="int64"):
+    """(physical type name, allowed converted type names) the column kind demands; None = not judged"""
+    k = kind.lower() if kind[:3] in ("Int", "UIn") else kind
+    if k in ("bool", "boolean", "cat_bool", "o_bool"):
+        return "BOOLEAN", (None,)
+    for bits in ("8", "16", "32", "64"):
+        phys = "INT64" if bits == "64" else "INT32"
+        if k == "int" + bits:
+            return phys, ("INT_" + bits,) if bits in ("8", "16") else (None, "INT_" + bits)
+        if k == "uint" + bits:
+            return phys, ("UINT_" + bits,)
+    if k in ("cat_int", "o_int"):
+        return "INT64", (None, "INT_64")
+    if k == "o_int32":
+        return "INT32", (None, "INT_32")
+    if k == "float32":
+        return "FLOAT", (None,)
+    if k in ("float64", "o_float"):
+        return "DOUBLE", (None,)
+    if k in ("str_obj", "str_pd") or (k.startswith("cat_") and k != "cat_int"):
+        return "BYTE_ARRAY", ("UTF8",)
+    if k == "bytes_obj":
+        return "BYTE_ARRAY", (None,)
+    if k == "json_obj":
+        return "BYTE_ARRAY", ("JSON",)
+    if k.startswith("fixed"):
+        return "FIXED_LEN_BYTE_ARRAY", ("UTF8",)
+    if k.startswith("td_"):
+        return "INT64", ("TIME_MICROS",)
+    if k.startswith("dt_"):
+        if times == "int96":
+            return "INT96", (None,)
+        return "INT64", (None, "TIMESTAMP_MILLIS", "TIMESTAMP_MICROS")
+    return None
+
+
+def check_leaf(c, what, node, kind, times="int64", has_values=True):
+    """physical type / converted type / logical type of one flat column against its kind and the format's rules.
+    has_values=False: an object column without a single value - nothing tells text from bytes from JSON"""
+    from mc.specpq import file as F
+    from mc.specpq import codecs as C
+    col = node.name
+    phys = C.PHYS_NAME.get(node.type, node.type)
+    ctn = F.CT_NAME.get(node.ct, node.ct) if node.ct is not None else None
+    lt = node.lt or {}
+    if ctn is not None and phys not in _CT_PHYS.get(ctn, (phys,)):
+        c.bad("schema_annotation", "%s: column %s: converted type %s on physical type %s" % (what, col, ctn, phys),
+              colkind=kind, part="ct_on_type")
+    exp = expected_leaf(kind, times)
+    if exp is None:
+        return
+    if phys != exp[0]:
+        c.bad("schema_annotation", "%s: column %s (%s) has physical type %s, expected %s" % (what, col, kind, phys, exp[0]),
+              colkind=kind, part="physical")
+        return
+    if not has_values and kind in ("str_obj", "bytes_obj", "json_obj"):
+        exp = (exp[0], (None, "UTF8", "JSON"))
+    if ctn not in exp[1]:
+        c.bad("schema_annotation", "%s: column %s (%s) has converted type %s, expected one of %r" % (
+            what, col, kind, ctn, exp[1]), colkind=kind, part="converted")
+    if kind.startswith("fixed") and node.type_length != int(kind[5:]):
+        c.bad("schema_annotation", "%s: column %s type_length %r" % (what, col, node.type_length), colkind=kind,
+              part="type_length")
+    if kind.startswith("dt_") and times != "int96":
+        ts = lt.get("TIMESTAMP")
+        if ctn is None and ts is None:
+            c.bad("schema_annotation", "%s: datetime column %s carries neither TIMESTAMP_* nor a TIMESTAMP logical type"
+                  % (what, col), colkind=kind, part="timestamp_missing")
+        if ts is not None:
+            lu = [u for u in ("MILLIS", "MICROS", "NANOS") if u in (ts.get("unit") or {})]
+            cu = {"TIMESTAMP_MILLIS": "MILLIS", "TIMESTAMP_MICROS": "MICROS"}.get(ctn)
+            if len(lu) != 1 or (cu is not None and lu[0] != cu):
+                c.bad("schema_annotation", "%s: column %s: logical TIMESTAMP unit %r, converted type %s" % (
+                    what, col, lu, ctn), colkind=kind, part="timestamp_unit")
+            aware = kind in _TZ_KINDS
+            if bool(ts.get("isAdjustedToUTC")) != aware:
+                c.bad("schema_annotation", "%s: column %s (%s): isAdjustedToUTC=%r for %s input" % (
+                    what, col, kind, ts.get("isAdjustedToUTC"), "tz-aware" if aware else "naive"), colkind=kind,
+                    part="isAdjustedToUTC")
+    elif kind.startswith("td_"):
+        tm = lt.get("TIME")
+        if tm is not None and "MICROS" not in (tm.get("unit") or {}):
+            c.bad("schema_annotation", "%s: column %s: logical TIME unit %r next to TIME_MICROS" % (what, col, tm.get("unit")),
+                  colkind=kind, part="time_unit")
+    elif lt and ("TIMESTAMP" in lt or "TIME" in lt):
+        c.bad("schema_annotation", "%s: column %s (%s) carries a time logical type %r" % (what, col, kind, sorted(lt)),
+              colkind=kind, part="logical")
+
+
+# ------------------------------------------------------------------------- framing slack
+JUDGED_DEVIATIONS = ("surplus_rle", "level_trailing_bytes", "dict_page_trailing_bytes")
+
+
+def check_slack(c, what, p):
+    """deviations that stay tolerated are bounded; the others are violations"""
+    from mc.specpq import file as F
+    dev = p.deviations
+    for k in JUDGED_DEVIATIONS:
+        if dev.get(k):
+            c.bad("framing_slack", "%s: %d x %s" % (what, dev[k], k), dev=k)
+    v2_only = True
+    for rg in p.row_groups:
+        for ch in rg.values():
+            if any(pg["type"] == F.P_DATA for pg in ch.pages):
+                v2_only = False
+    limit = 1 if v2_only else 9
+    if dev.get("page_trailing_bytes_max", 0) > limit:
+        c.bad("framing_slack", "%s: %d bytes after the last value of a page (at most %d are padding)" % (
+            what, dev["page_trailing_bytes_max"], limit), dev="page_trailing_bytes")
+    if dev.get("excess_groups_max", 0) > 1:
+        c.bad("framing_slack", "%s: a bit-packed run declares %d groups more than its values need" % (
+            what, dev["excess_groups_max"]), dev="excess_groups")
+
+
+def codec_name(comp):
+    """codec the option value asks for"""
+    if isinstance(comp, dict):
+        comp = comp.get("type")
+    return (comp or "UNCOMPRESSED").upper()
+
+
+def validate_file(c, path, what, df=None, kinds=None, optional=None, codecs=None, times="int64"):
+    """strict validation + decode of one file; compare with df when given.
+    optional: {col: bool} expected repetition (None: not judged); codecs: {col: codec name} expected codec"""
     from mc.specpq import file as F
     from mc import oracles as O
     data = open(path, "rb").read()
@@ -179,6 +378,7 @@ def validate_file(c, path, what, df=None, kinds=None):
             c.dev[k] = c.dev.get(k, 0) + v
     for e in p.errors:
         c.bad("metadata_mismatch", "%s: %s" % (what, e), err=_errclass(e))
+    check_slack(c, what, p)
     c.files += 1
     if df is None:
         return p
@@ -191,19 +391,134 @@ def validate_file(c, path, what, df=None, kinds=None):
         return p
     for col in df.columns:
         kind = kinds[col]
-        node = [n for n in p.root.children if n.name == col][0]
-        optional = node.rep == F.OPTIONAL
-        try:
-            got = decoded_rows(p, col, kind)
-        except Exception as e:
-            c.bad("decode_failed", "%s: column %s: %s: %s" % (what, col, type(e).__name__, e))
+        name = str(col)
+        node = [n for n in p.root.children if n.name == name][0]
+        is_opt = node.rep == F.OPTIONAL
+        if node.children:
+            c.bad("schema_annotation", "%s: column %s is not a flat leaf" % (what, name), colkind=kind, part="nested")
             continue
-        exp = expected_rows(df[col], kind, node, optional)
+        if node.rep not in (F.OPTIONAL, F.REQUIRED):
+            c.bad("schema_annotation", "%s: column %s repetition %r" % (what, name, node.rep), colkind=kind, part="repetition")
+        elif optional is not None and optional.get(col) is not None and bool(optional[col]) != is_opt:
+            c.bad("schema_annotation", "%s: column %s is %s, the has_nulls option asks for %s" % (
+                what, name, "OPTIONAL" if is_opt else "REQUIRED", "OPTIONAL" if optional[col] else "REQUIRED"),
+                colkind=kind, part="repetition")
+        check_leaf(c, what, node, kind, times, bool(df[col].notna().any()))
+        if codecs is not None and codecs.get(col) is not None:
+            for gi, rg in enumerate(p.row_groups):
+                ch = rg.get((name,))
+                got = F.CODECS.get(ch.md["codec"], ch.md["codec"]) if ch is not None else None
+                if ch is not None and got != codecs[col]:
+                    c.bad("wrong_codec", "%s: column %s row group %d uses codec %s, option asks for %s" % (
+                        what, name, gi, got, codecs[col]), colkind=kind)
+                    break
+        try:
+            got = decoded_rows(p, name, kind)
+        except Exception as e:
+            c.bad("decode_failed", "%s: column %s: %s: %s" % (what, name, type(e).__name__, e))
+            continue
+        exp = expected_rows(df[col], kind, node, is_opt)
         i = O.first_diff(got, exp)
         if i is not None:
             c.bad("decodes_differently", "%s: column %s row %s: independent reader sees %r, written %r" % (
-                what, col, i, got[i] if i >= 0 else len(got), exp[i] if i >= 0 else len(exp)), colkind=kind)
+                what, name, i, got[i] if i >= 0 else len(got), exp[i] if i >= 0 else len(exp)), colkind=kind)
     return p
+
+
+def validate_dataset(c, path, what, parts, kinds, optional=None, codecs=None, partition=None):
+    """_metadata, _common_metadata and every part file of a directory dataset.
+    parts: list of expected frames, one per row group in _metadata order, or a frame to be cut by the row groups'
+    num_rows.  partition: (column names, 'hive'|'drill') when the directory tree encodes partition keys."""
+    import os
+    import pandas as pd
+    from mc import wr
+    from mc.specpq import file as F
+    try:
+        pm = F.read_footer(open(os.path.join(path, "_metadata"), "rb").read())
+        pc = F.read_footer(open(os.path.join(path, "_common_metadata"), "rb").read())
+    except Exception as e:
+        c.bad("not_parquet", "%s: summary file: %s" % (what, e), file="_metadata")
+        return
+    c.files += 2
+    if pc.fmd["schema"] != pm.fmd["schema"]:
+        c.bad("metadata_mismatch", "%s: _common_metadata schema differs from _metadata" % what, file="_common_metadata")
+    if pc.fmd["row_groups"]:
+        c.bad("metadata_mismatch", "%s: _common_metadata lists row groups" % what, file="_common_metadata")
+    whole = parts if isinstance(parts, pd.DataFrame) else None
+    if whole is None and len(parts) != len(pm.fmd["row_groups"]):
+        c.bad("row_count", "%s: _metadata lists %d row groups, the data splits into %d" % (
+            what, len(pm.fmd["row_groups"]), len(parts)), file="_metadata")
+        return
+    start = 0
+    total = 0
+    referenced = []
+    for gi, rg in enumerate(pm.fmd["row_groups"]):
+        fps = {cc.get("file_path") for cc in rg["columns"]}
+        fp = rg["columns"][0].get("file_path")
+        if len(fps) != 1:
+            c.bad("metadata_mismatch", "%s: the chunks of row group %d name %d different files" % (what, gi, len(fps)),
+                  file="_metadata", fields="file_path")
+        if not fp or not os.path.exists(os.path.join(path, fp)):
+            c.bad("dangling_file_path", "%s: row group %d references %r" % (what, gi, fp))
+            continue
+        referenced.append(os.path.normpath(fp))
+        if partition is not None:
+            comps = fp.split("/")
+            names, scheme = partition
+            ok = len(comps) == len(names) + 1
+            if ok and scheme == "hive":
+                ok = all(cp.startswith(nm + "=") and len(cp) > len(nm) + 1 for cp, nm in zip(comps, names))
+            elif ok:
+                ok = all(cp and "=" not in cp for cp in comps[:-1])
+            if not ok:
+                c.bad("dangling_file_path", "%s: row group %d path %r is not a %s path over %r" % (what, gi, fp, scheme, names))
+        nr = rg["num_rows"]
+        if whole is not None:
+            part = whole.iloc[start:start + nr].reset_index(drop=True)
+        else:
+            part = parts[gi].reset_index(drop=True)
+        pp = validate_file(c, os.path.join(path, fp), what + " part " + fp, part, kinds, optional, codecs)
+        if pp is not None:
+            own = pp.fmd["row_groups"]
+            if len(own) != 1 or own[0]["num_rows"] != nr:
+                c.bad("metadata_mismatch", "%s: %s holds %s rows, _metadata says %d" % (
+                    what, fp, [g["num_rows"] for g in own], nr), file="_metadata")
+            else:
+                for cm, co in zip(rg["columns"], own[0]["columns"]):
+                    a, b = dict(cm["meta_data"]), dict(co["meta_data"])
+                    if a != b:
+                        diff = [k for k in set(a) | set(b) if a.get(k) != b.get(k)]
+                        c.bad("metadata_mismatch", "%s: column metadata of %s in _metadata differs from the file's own footer in %s" % (
+                            what, fp, sorted(diff)), file="_metadata", fields=",".join(sorted(diff)))
+                    if cm.get("file_offset") != co.get("file_offset"):
+                        c.bad("metadata_mismatch", "%s: file_offset of a chunk of %s is %r in _metadata, %r in the file" % (
+                            what, fp, cm.get("file_offset"), co.get("file_offset")), file="_metadata", fields="file_offset")
+                if rg.get("total_byte_size") != own[0].get("total_byte_size"):
+                    c.bad("metadata_mismatch", "%s: total_byte_size of %s is %r in _metadata, %r in the file" % (
+                        what, fp, rg.get("total_byte_size"), own[0].get("total_byte_size")), file="_metadata",
+                        fields="total_byte_size")
+            if pp.fmd["schema"] != pm.fmd["schema"]:
+                c.bad("metadata_mismatch", "%s: schema of %s differs from the schema in _metadata" % (what, fp),
+                      file="_metadata", fields="schema")
+        start += nr
+        total += nr
+    want = len(whole) if whole is not None else sum(len(x) for x in parts)
+    if pm.fmd["num_rows"] != total or total != want:
+        c.bad("row_count", "%s: _metadata num_rows %d, row groups %d, frame %d" % (what, pm.fmd["num_rows"], total, want))
+    on_disk = sorted(os.path.normpath(os.path.relpath(f, path)) for f in wr.listing(path)
+                     if not os.path.basename(f).startswith("_"))
+    if on_disk != sorted(referenced):
+        c.bad("metadata_mismatch", "%s: files in the directory %r, referenced by _metadata %r" % (
+            what, on_disk[:6], sorted(referenced)[:6]), file="_metadata", fields="unreferenced")
+
+
+def optional_for(df, hn):
+    """repetition the has_nulls option value asks for, per column"""
+    if hn is True or hn is False:
+        return {col: hn for col in df.columns}
+    if hn == "infer":
+        return {col: df[col].dtype == "O" for col in df.columns}
+    return {col: col in hn for col in df.columns}
 
 
 def run(point):
@@ -216,16 +531,19 @@ def run_V1(c, p):
     import os
     import fastparquet
     from mc import alphabets as A, wr
+    from mc.props import C01
     from mc.scratch import scratch
     kind, comp, ver, tiny = p["kind"], p["comp"], p["v"], p["tiny"]
     ns = [n for n in (A.N_THOROUGH if p["tier"] == "thorough" else A.N_QUICK)]
+    if p["tier"] != "thorough" and comp is None:
+        ns = ns + [63, 64, 65]     # level / bit-pack framing does not depend on the codec: uncompressed cells only
     hn_list = [True, False, "infer", ["c"]] if p["tier"] == "thorough" else [True, False, "infer"]
     stats_list = [True, False, "auto"] if p["tier"] == "thorough" else [True]
-    for pat in A.patterns_for(kind):
+    for pat in C01.patterns_for(kind):
         for n in ns:
             if pat != "none" and n == 0:
                 continue
-            df = A.series(kind, n, pat).to_frame()
+            df = C01.mk_series(kind, n, pat).to_frame()
             ps = wr.tiny_page_size(df, max(1, n // 3)) if tiny and n else None
             for hn in hn_list:
                 for st in stats_list:
@@ -239,7 +557,7 @@ def run_V1(c, p):
                         c.refused += 1
                         continue
                     validate_file(c, path, "V1 %s n=%d nulls=%s has_nulls=%s stats=%s" % (kind, n, pat, hn, st),
-                                  df, {"c": kind})
+                                  df, {"c": kind}, optional_for(df, hn), {"c": codec_name(comp)})
 
 
 def run_V2(c, p):
@@ -248,76 +566,335 @@ def run_V2(c, p):
     import fastparquet
     from mc import alphabets as A, wr
     from mc.scratch import scratch
-    from mc.specpq import file as F
     k1, k2, ver, comp = p["k1"], p["k2"], p["v"], p["comp"]
     n = 9
     s1 = A.series(k1, n, "alt" if k1 in A.NULLABLE_KINDS else "none", 0, "a")
     s2 = A.series(k2, n, "none", 2, "b")
     df = pd.DataFrame({"a": s1, "b": s2})
     kinds = {"a": k1, "b": k2}
+    codecs = {"a": codec_name(comp), "b": codec_name(comp)}
+    tiny_ps = wr.tiny_page_size(df, 2)
     for rgo in (None, [0, 2, 5], 4):
         for scheme in ("hive", "drill", "simple"):
-            c.ctx = {"scheme": scheme, "rgo": str(rgo)}
-            d = scratch()
-            path = os.path.join(d, "ds" if scheme != "simple" else "t.parquet")
-            try:
-                with wr.PageCfg(ver, None):
-                    fastparquet.write(path, df, compression=comp, row_group_offsets=rgo, file_scheme=scheme,
-                                      write_index=False)
-            except Exception:
-                c.refused += 1
-                continue
-            what = "V2 %s,%s rgo=%s %s" % (k1, k2, rgo, scheme)
-            if scheme == "simple":
-                validate_file(c, path, what, df, kinds)
-                continue
-            # every part file, in _metadata order, must decode to its slice of the frame
-            mpath = os.path.join(path, "_metadata")
-            try:
-                pm = F.read_footer(open(mpath, "rb").read())
-                pc = F.read_footer(open(os.path.join(path, "_common_metadata"), "rb").read())
-            except Exception as e:
-                c.bad("not_parquet", "%s: summary file: %s" % (what, e), file="_metadata")
-                continue
-            c.files += 2
-            if pc.fmd["schema"] != pm.fmd["schema"]:
-                c.bad("metadata_mismatch", "%s: _common_metadata schema differs from _metadata" % what, file="_common_metadata")
-            if pc.fmd["row_groups"]:
-                c.bad("metadata_mismatch", "%s: _common_metadata lists row groups" % what, file="_common_metadata")
-            start = 0
-            total = 0
-            for gi, rg in enumerate(pm.fmd["row_groups"]):
-                fps = {cc.get("file_path") for cc in rg["columns"]}
-                fp = rg["columns"][0].get("file_path")
-                if not fp or not os.path.exists(os.path.join(path, fp)):
-                    c.bad("dangling_file_path", "%s: row group %d references %r" % (what, gi, fp))
+            # has_nulls lists and several pages per chunk: simple and hive (drill differs from hive only with partition_on)
+            variants = [(True, None)] if scheme == "drill" else [(True, None), (["a"], None), (["b"], None), (True, tiny_ps)]
+            for hn, ps in variants:
+                c.ctx = {"scheme": scheme, "rgo": str(rgo)}
+                if hn is not True or ps:
+                    c.ctx.update({"has_nulls": str(hn), "tiny": bool(ps)})
+                d = scratch()
+                path = os.path.join(d, "ds" if scheme != "simple" else "t.parquet")
+                try:
+                    with wr.PageCfg(ver, ps):
+                        fastparquet.write(path, df, compression=comp, row_group_offsets=rgo, file_scheme=scheme,
+                                          write_index=False, has_nulls=hn)
+                except Exception:
+                    c.refused += 1
                     continue
-                nr = rg["num_rows"]
-                part = df.iloc[start:start + nr].reset_index(drop=True)
-                pp = validate_file(c, os.path.join(path, fp), what + " part " + fp, part, kinds)
-                if pp is not None:
-                    own = pp.fmd["row_groups"]
-                    if len(own) != 1 or own[0]["num_rows"] != nr:
-                        c.bad("metadata_mismatch", "%s: %s holds %s rows, _metadata says %d" % (
-                            what, fp, [g["num_rows"] for g in own], nr), file="_metadata")
-                    else:
-                        for cm, co in zip(rg["columns"], own[0]["columns"]):
-                            a, b = dict(cm["meta_data"]), dict(co["meta_data"])
-                            if a != b:
-                                diff = [k for k in set(a) | set(b) if a.get(k) != b.get(k)]
-                                c.bad("metadata_mismatch", "%s: column metadata of %s in _metadata differs from the file's own footer in %s" % (
-                                    what, fp, sorted(diff)), file="_metadata", fields=",".join(sorted(diff)))
-                start += nr
-                total += nr
-            if pm.fmd["num_rows"] != total or total != len(df):
-                c.bad("row_count", "%s: _metadata num_rows %d, row groups %d, frame %d" % (what, pm.fmd["num_rows"], total, len(df)))
+                what = "V2 %s,%s rgo=%s %s has_nulls=%s tiny=%s" % (k1, k2, rgo, scheme, hn, bool(ps))
+                if scheme == "simple":
+                    validate_file(c, path, what, df, kinds, optional_for(df, hn), codecs)
+                    continue
+                # every part file, in _metadata order, must decode to its slice of the frame
+                validate_dataset(c, path, what, df, kinds, optional_for(df, hn), codecs)
 
 
-LEVEL_TEXT = ("Every file of the bounded write lattice (all dtypes x null patterns x row counts x nullability modes x "
-              "codecs x v1/v2 x page sizes, single files and multi-file datasets with their summary files) is parsed "
-              "by an independent strict reader that recomputes every size / count / offset / encoding field from the "
-              "bytes and decodes the values from the specification alone; symmetric writer/reader errors that the "
-              "library's own round trip cannot see are visible here.")
-LEVEL_NOTE = ("Trusted: specpq (validated against third-party files), cramjam. Tolerated deviations are counted in the "
-              "evidence and never judged.")
+def part_key_series(pk, n):
+    """partition column: few distinct values, none missing, names that are legal directory names"""
+    import pandas as pd
+    from mc import alphabets as A
+    if pk == "int64":
+        return pd.Series([10, -3, 7, 10, 7, -3, 0, 10, 7][:n], dtype="int64", name="b")
+    if pk == "str_obj":
+        return pd.Series(["x", "y", "x", "z z", "y", "é", "x", "y", "x"][:n], dtype=object, name="b")
+    return A.series(pk, n, "none", 0, "b")
+
+
+def run_VP(c, p):
+    """partition_on: the part files live in one directory per key (hive: name=value, drill: value) and hold the
+    remaining columns of the rows with that key, in input order; row groups are listed chunk by chunk, keys sorted"""
+    import os
+    import pandas as pd
+    import fastparquet
+    from mc import alphabets as A, wr
+    from mc.scratch import scratch
+    k1, pk, ver, comp = p["k1"], p["pk"], p["v"], p["comp"]
+    n = 9
+    df = pd.DataFrame({"a": A.series(k1, n, "alt" if k1 in A.NULLABLE_KINDS else "none", 0, "a"),
+                       "b": part_key_series(pk, n),
+                       "q": pd.Series([1, 1, 2, 2, 1, 1, 2, 2, 1], dtype="int64", name="q"),
+                       "z": A.series("str_obj", n, "first", 1, "z")})
+    for pon in (["b"], ["b", "q"]):
+        rest = [col for col in df.columns if col not in pon]
+        kinds = {"a": k1, "q": "int64", "z": "str_obj"}
+        codecs = {col: codec_name(comp) for col in rest}
+        for rgo in (None, [0, 4]):
+            bounds = [0, n] if rgo is None else rgo + [n]
+            parts = []
+            for lo, hi in zip(bounds[:-1], bounds[1:]):
+                chunk = df.iloc[lo:hi]
+                keys = sorted(set(tuple(chunk[col].iloc[i] for col in pon) for i in range(len(chunk))))
+                for key in keys:
+                    m = pd.Series(True, index=chunk.index)
+                    for col, v in zip(pon, key):
+                        m &= (chunk[col] == v)
+                    parts.append(chunk[m][rest])
+            for scheme in ("hive", "drill"):
+                c.ctx = {"scheme": scheme, "rgo": str(rgo), "partition_on": ",".join(pon)}
+                d = scratch()
+                path = os.path.join(d, "ds")
+                try:
+                    with wr.PageCfg(ver, None):
+                        fastparquet.write(path, df, compression=comp, row_group_offsets=rgo, file_scheme=scheme,
+                                          write_index=False, partition_on=pon)
+                except Exception:
+                    c.refused += 1
+                    continue
+                what = "VP %s by %s partition_on=%s rgo=%s %s" % (k1, pk, pon, rgo, scheme)
+                validate_dataset(c, path, what, parts, kinds, {col: True for col in rest}, codecs, partition=(pon, scheme))
+
+
+def run_VB(c, p):
+    """row counts at which run headers and length prefixes grow: RLE run header 2 bytes from 64 rows (V1), bit-packed
+    header 2 bytes from 504 rows (levels) / 505 rows (dictionary indices), v1 level block > 255 bytes from 2040 rows,
+    3-byte page sizes; one page and five pages of >= 100 rows"""
+    import os
+    import fastparquet
+    from mc import wr
+    from mc.props import C01
+    from mc.scratch import scratch
+    kind, n = p["kind"], p["n"]
+    for pat in (["none", "alt", "last"] if C01.is_nullable(kind) else ["none"]):
+        df = C01.mk_series(kind, n, pat).to_frame()
+        for ver in (1, 2):
+            for tiny in (False, True):
+                ps = wr.tiny_page_size(df, n // 5) if tiny else None
+                comp = "SNAPPY" if (ver == 2) == tiny else None
+                c.ctx = {"nulls": pat, "v": ver, "tiny": tiny}
+                d = scratch()
+                path = os.path.join(d, "t.parquet")
+                try:
+                    with wr.PageCfg(ver, ps):
+                        fastparquet.write(path, df, compression=comp, stats=True)
+                except Exception:
+                    c.refused += 1
+                    continue
+                validate_file(c, path, "VB %s n=%d nulls=%s v%d tiny=%s comp=%s" % (kind, n, pat, ver, tiny, comp),
+                              df, {"c": kind}, {"c": True}, {"c": codec_name(comp)})
+
+
+def _write_validate(c, df, kinds, what, ver=None, ps=None, optional=None, codecs=None, **wkw):
+    import os
+    import fastparquet
+    from mc import wr
+    from mc.scratch import scratch
+    d = scratch()
+    path = os.path.join(d, "t.parquet")
+    try:
+        if ver is None:
+            fastparquet.write(path, df, **wkw)
+        else:
+            with wr.PageCfg(ver, ps):
+                fastparquet.write(path, df, **wkw)
+    except Exception:
+        c.refused += 1
+        return None
+    return validate_file(c, path, what, df, kinds, optional, codecs, wkw.get("times", "int64"))
+
+
+def run_VO(c, p):
+    """the option sub-lattices of C01's S3 (same frames), validated and decoded independently"""
+    import pandas as pd
+    from mc import alphabets as A, wr
+    from mc.props import C01
+    opt = p["opt"]
+    if opt == "times":
+        kind, times = p["kind"], p["times"]
+        for pat in ("none", "alt", "all"):
+            df = C01.mk_series(kind, 9, pat).to_frame()
+            for hn in (True, False):
+                for ver, tiny in C01.LAYOUTS:
+                    c.ctx = {"nulls": pat, "has_nulls": str(hn), "v": ver, "tiny": tiny}
+                    _write_validate(c, df, {"c": kind}, "VO times=%s %s nulls=%s has_nulls=%s v%d tiny=%s" % (
+                        times, kind, pat, hn, ver, tiny), ver, wr.tiny_page_size(df, 3) if tiny else None,
+                        {"c": hn}, None, times=times, has_nulls=hn)
+    elif opt == "object_encoding":
+        enc = p["enc"]
+        cols = {"infer": ["str_obj", "bytes_obj", "json_obj"], "utf8": ["str_obj"], "bytes": ["bytes_obj"],
+                "json": ["json_obj"], "bool": ["o_bool"], "int": ["o_int"], "int32": ["o_int32"], "float": ["o_float"]}[enc]
+        for kind in cols:
+            for pat in ("none", "alt", "first", "all"):
+                if kind.startswith("o_"):
+                    base = {"o_bool": [True, False, True, True, False, False, True, False, True],
+                            "o_int": [1, -2, 3, 2 ** 40, 0, 5, 6, -2 ** 63, 2 ** 63 - 1],
+                            "o_int32": [1, -2, 3, 2 ** 31 - 1, 0, 5, 6, -2 ** 31, 8],
+                            "o_float": [1.5, -2.5, 0.0, 1e300, 3.0, 4.0, 5.0, 6.0, 7.0]}[kind]
+                    m = A.nullmask(pat, 9)
+                    df = pd.Series([None if z else v for v, z in zip(base, m)], dtype=object, name="c").to_frame()
+                else:
+                    df = A.series(kind, 9, pat).to_frame()
+                for ver in (1, 2):
+                    c.ctx = {"nulls": pat, "objkind": kind, "v": ver}
+                    _write_validate(c, df, {"c": kind}, "VO object_encoding=%s %s nulls=%s v%d" % (enc, kind, pat, ver),
+                                    ver, None, {"c": True}, None, object_encoding=enc)
+    elif opt == "object_encoding_dict":
+        for pat in ("none", "alt"):
+            df = pd.DataFrame({"a": A.series("str_obj", 9, pat, 0, "a"), "b": A.series("json_obj", 9, pat, 1, "b"),
+                               "c": A.series("bytes_obj", 9, pat, 2, "c"), "d": A.series("str_obj", 9, pat, 3, "d")})
+            kinds = {"a": "str_obj", "b": "json_obj", "c": "bytes_obj", "d": "str_obj"}
+            for oe in ({"a": "utf8", "b": "json", "c": "bytes", "d": "infer"},
+                       {"a": "infer", "b": "infer", "c": "infer", "d": "infer"}):
+                for ver in (1, 2):
+                    c.ctx = {"nulls": pat, "oe": str(sorted(oe.items())), "v": ver}
+                    _write_validate(c, df, kinds, "VO object_encoding=%r nulls=%s v%d" % (oe, pat, ver), ver, None,
+                                    {col: True for col in df.columns}, None, object_encoding=oe)
+    elif opt == "fixed_text":
+        for pat in ("none", "alt"):
+            vals = ["abcd", "wxyz", "1234", "éa", "q   ", "....", "abcd", "zzzz", "0000"]
+            m = A.nullmask(pat, 9)
+            df = pd.DataFrame({"c": pd.Series([None if z else v for v, z in zip(vals, m)], dtype=object)})
+            for ver, tiny in C01.LAYOUTS:
+                for comp in (None, "SNAPPY"):
+                    c.ctx = {"nulls": pat, "v": ver, "tiny": tiny, "comp": str(comp)}
+                    _write_validate(c, df, {"c": "fixed4"}, "VO fixed_text nulls=%s v%d tiny=%s %s" % (pat, ver, tiny, comp),
+                                    ver, 13 if tiny else None, {"c": True}, {"c": codec_name(comp)},
+                                    fixed_text={"c": 4}, object_encoding="utf8", compression=comp, stats=True)
+    elif opt == "compdict":
+        df = pd.DataFrame({"a": A.series("int64", 9, "none", 0, "a"), "b": A.series("str_obj", 9, "alt", 0, "b"),
+                           "c": A.series("float64", 9, "alt", 0, "c")})
+        kinds = {"a": "int64", "b": "str_obj", "c": "float64"}
+        for comp in ({"a": "SNAPPY", "b": None, "_default": "GZIP"},
+                     {"a": {"type": "ZSTD", "args": {"level": 3}}, "_default": {"type": "GZIP", "args": None}},
+                     {"b": {"type": "LZ4", "args": None}, "c": "BROTLI"},
+                     {"a": "snappy", "b": "UNCOMPRESSED", "c": {"type": "zstd", "args": None}}):
+            codecs = {col: codec_name(comp[col] if col in comp else comp.get("_default")) for col in df.columns}
+            for ver, tiny in C01.LAYOUTS:
+                c.ctx = {"comp": str(sorted(comp)), "v": ver, "tiny": tiny}
+                _write_validate(c, df, kinds, "VO compression dict %r v%d tiny=%s" % (comp, ver, tiny), ver,
+                                wr.tiny_page_size(df, 3) if tiny else None, {col: True for col in df.columns}, codecs,
+                                compression=comp)
+
+
+def index_frame(df, ik, written):
+    """(frame the file must hold, {column: kind} of the added columns): the index turned into ordinary columns - an
+    unnamed index is called 'index' and comes first, the levels of a MultiIndex follow the data columns as
+    dictionary-encoded columns"""
+    import pandas as pd
+    if not written:
+        return df.reset_index(drop=True), {}
+    if ik == "multi2":
+        out = df.reset_index(drop=True)
+        out["l0"] = list(df.index.get_level_values(0))
+        out["l1"] = pd.Series(list(df.index.get_level_values(1)), dtype=object)
+        return out, {"l0": "cat_int", "l1": "cat_str"}
+    name = df.index.name if df.index.name is not None else "index"
+    out = df.reset_index(drop=True)
+    out.insert(0, name, pd.Series(df.index.array, name=name))
+    return out, {name: INDEX_COL_KIND[ik]}
+
+
+def run_VI(c, p):
+    import os
+    import numpy as np
+    import pandas as pd
+    import fastparquet
+    from mc import wr
+    from mc.props import C01
+    from mc.scratch import scratch
+    opt = p["opt"]
+    if opt == "index":
+        ik, kind = p["ik"], p["kind"]
+        for n in (0, 1, 9):
+            s = C01.mk_series(kind, n, "alt" if (C01.is_nullable(kind) and n > 1) else "none", 1, "a")
+            idx, written, names = C01.index_of(ik, n)
+            df = pd.DataFrame({"a": s})
+            df.index = idx
+            exp, ikinds = index_frame(df, ik, written)
+            kinds = dict(ikinds, a=kind)
+            for rgo in (None, [0, 2, 5]):
+                rgo_eff = [x for x in rgo if x < max(n, 1)] if isinstance(rgo, list) else rgo
+                for scheme in ("simple", "hive"):
+                    for ver in (1, 2):
+                        c.ctx = {"scheme": scheme, "rgo": str(rgo), "v": ver}
+                        what = "VI index=%s col=%s n=%d rgo=%s %s v%d" % (ik, kind, n, rgo, scheme, ver)
+                        d = scratch()
+                        path = os.path.join(d, "t.parquet" if scheme == "simple" else "ds")
+                        try:
+                            with wr.PageCfg(ver, None):
+                                fastparquet.write(path, df, row_group_offsets=rgo_eff, file_scheme=scheme)
+                        except Exception:
+                            c.refused += 1
+                            continue
+                        opt_exp = {col: True for col in exp.columns}
+                        if scheme == "simple":
+                            validate_file(c, path, what, exp, kinds, opt_exp)
+                        else:
+                            validate_dataset(c, path, what, exp, kinds, opt_exp)
+    elif opt == "wide":
+        ver, tiny = p["v"], p["tiny"]
+        kinds = {name: kind for name, kind, _, _ in C01.WIDE}
+        n = 9
+        df = pd.DataFrame({name: C01.mk_series(kind, n, pat, off, name) for name, kind, pat, off in C01.WIDE})
+        ps = wr.tiny_page_size(df[["z"]], 2) if tiny else None
+        some = ["a.b", "m", "d1", "I", "I0", "c9", "0"]
+        for rgo in (None, [0, 2, 5], 4):
+            for scheme in ("simple", "hive"):
+                for hn in (True, some):
+                    for comp in (None, {"_default": "SNAPPY", "é": None, "a.b": "GZIP"}):
+                        c.ctx = {"rgo": str(rgo), "scheme": scheme, "has_nulls": "all" if hn is True else "list",
+                                 "comp": "dict" if comp else "None"}
+                        what = "VI wide rgo=%s %s v%d tiny=%s has_nulls=%s comp=%s" % (rgo, scheme, ver, tiny, hn, comp)
+                        codecs = {col: codec_name((comp or {}).get(col, (comp or {}).get("_default"))) for col in df.columns}
+                        d = scratch()
+                        path = os.path.join(d, "t.parquet" if scheme == "simple" else "ds")
+                        try:
+                            with wr.PageCfg(ver, ps):
+                                fastparquet.write(path, df, row_group_offsets=rgo, file_scheme=scheme, has_nulls=hn,
+                                                  compression=comp)
+                        except Exception:
+                            c.refused += 1
+                            continue
+                        if scheme == "simple":
+                            validate_file(c, path, what, df, kinds, optional_for(df, hn), codecs)
+                        else:
+                            validate_dataset(c, path, what, df, kinds, optional_for(df, hn), codecs)
+    elif opt == "multicol":
+        # two-level column names: the schema name and path_in_schema are the text of the tuple
+        ver = p["v"]
+        n = 9
+        cols = [("x", "a"), ("x", "b"), ("y", "a"), ("é", "q.r")]
+        ckinds = ["int64", "str_obj", "cat_str", "float64"]
+        df = pd.DataFrame({i: C01.mk_series(k, n, "alt" if C01.is_nullable(k) else "none", i, str(i))
+                           for i, k in enumerate(ckinds)})
+        df.columns = pd.MultiIndex.from_tuples(cols, names=["l0", "l1"])
+        kinds = dict(zip(cols, ckinds))
+        for rgo in (None, [0, 2, 5]):
+            for scheme in ("simple", "hive"):
+                c.ctx = {"rgo": str(rgo), "scheme": scheme}
+                what = "VI two-level column names rgo=%s %s v%d" % (rgo, scheme, ver)
+                d = scratch()
+                path = os.path.join(d, "t.parquet" if scheme == "simple" else "ds")
+                try:
+                    with wr.PageCfg(ver, None):
+                        fastparquet.write(path, df, row_group_offsets=rgo, file_scheme=scheme)
+                except Exception:
+                    c.refused += 1
+                    continue
+                opt_exp = {col: True for col in cols}
+                if scheme == "simple":
+                    validate_file(c, path, what, df, kinds, opt_exp)
+                else:
+                    validate_dataset(c, path, what, df, kinds, opt_exp)
+
+
+LEVEL_TEXT = ("Every file of the bounded write lattice (all dtypes x null patterns x row counts incl. the sizes where run "
+              "headers and length prefixes grow x nullability modes x codecs and their spellings x v1/v2 x page sizes; "
+              "int96 times, object encodings, fixed-length text, per-column codecs; written indexes, two-level and "
+              "non-ASCII column names; single files, multi-file and partitioned datasets with their summary files) is "
+              "parsed by an independent strict reader that recomputes every size / count / offset / encoding field from "
+              "the bytes and decodes the values from the specification alone; physical, converted and logical type, "
+              "repetition and codec of every column are compared with what its dtype and the options demand; symmetric "
+              "writer/reader errors that the library's own round trip cannot see are visible here.")
+LEVEL_NOTE = ("Trusted: specpq (validated against third-party files), cramjam. Tolerated deviations are bounded and "
+              "counted in the evidence; beyond the bound they are violations.")
 TECHNIQUE = "bounded exhaustive enumeration of written files, strict independent spec-level validation and decode"
